@@ -188,6 +188,20 @@ impl Taxonomy {
     pub fn names(&self) -> Vec<String> {
         let mut n: Vec<String> = self.table().keys().map(|s| s.to_string()).collect();
         n.extend(["undefinedThing".to_string(), "marker".to_string(), "choice".to_string(), "x-y".to_string()]);
+        // names that are *not* defs but are made of defs: a conjunct of two defined names, a feature key of two, a
+        // defined name with an undefined part (only the def table says what exists)
+        let plain: Vec<String> = n.iter().filter(|x| !x.contains('-') && !x.contains(':') && self.defined(x)).cloned().collect();
+        for w in plain.windows(2).take(4) {
+            for glue in ["-", ":"] {
+                let made = format!("{}{glue}{}", w[0], w[1]);
+                if !self.defined(&made) {
+                    n.push(made);
+                }
+            }
+        }
+        if let Some(p) = plain.first() {
+            n.push(format!("{p}-undefinedThing"));
+        }
         n.sort();
         n.dedup();
         n
@@ -203,8 +217,11 @@ pub fn taxonomy(max_defs: usize) -> BoxedStrategy<Taxonomy> {
         any::<u8>(),
         prop::option::of(symbol_name()),
     );
-    (prop::collection::vec(spec, 3..=max_defs), 0usize..3)
-        .prop_map(|(specs, junk_rows)| {
+    // one taxonomy in twelve also carries a long single chain (60-140 levels below `entity`): depth well beyond
+    // anything the shipped defs have, queried like every other def
+    let chain = prop_oneof![11 => Just(0usize), 1 => 60usize..140];
+    (prop::collection::vec(spec, 3..=max_defs), 0usize..3, chain)
+        .prop_map(|(specs, junk_rows, chain)| {
             let mut defs: Vec<DefSpec> = vec![];
             // roots every taxonomy may refer to
             defs.push(DefSpec { name: "marker".into(), is: vec![], has_is: false, extra: RDict::new() });
@@ -255,7 +272,17 @@ pub fn taxonomy(max_defs: usize) -> BoxedStrategy<Taxonomy> {
                         name = n;
                     }
                     3 => {
-                        extra.insert("mandatory".into(), RVal::Marker);
+                        // def rows carry other tags besides `def` and `is` (the real defs: doc, lib, mandatory, deprecated, ...):
+                        // none of them changes what exists or what is a subtype of what
+                        const TAGS: &[&str] = &["mandatory", "deprecated", "notInherited", "transitive", "computed", "nodoc", "sealed", "abstract", "doc", "lib", "wikipedia", "children", "tagOn", "of"];
+                        for (k, e) in edges.iter().enumerate().take(3) {
+                            let t = TAGS[idx(e.0.wrapping_add(k as u16 * 977), TAGS.len())];
+                            let v = if k == 1 && e.1 % 3 == 0 { RVal::Str("text".into()) } else { RVal::Marker };
+                            extra.insert(t.into(), v);
+                        }
+                        if extra.is_empty() {
+                            extra.insert("mandatory".into(), RVal::Marker);
+                        }
                     }
                     4 => {
                         // names over a tiny alphabet joined by ':' (feature-key style): `k:l` + `m` and `k` + `l:m` read alike when glued
@@ -275,6 +302,14 @@ pub fn taxonomy(max_defs: usize) -> BoxedStrategy<Taxonomy> {
                     name.push('x');
                 }
                 defs.push(DefSpec { name, is, has_is, extra });
+            }
+            for k in 0..chain {
+                let parent = if k == 0 { "entity".to_string() } else { format!("ch{}", k - 1) };
+                let mut is = vec![RVal::Symbol(parent)];
+                if k % 17 == 5 {
+                    is.push(RVal::Symbol("marker".into()));
+                }
+                defs.push(DefSpec { name: format!("ch{k}"), is, has_is: true, extra: RDict::new() });
             }
             Taxonomy { defs, junk_rows }
         })
